@@ -163,6 +163,13 @@ class HX:
             raise ReplayAssumeFailed("pick %s out of range" % name)
         return options[idx]
 
+    def choose(self, c):
+        """declared two-way split on a condition over symbolic values: returns a plain bool (forks in the symbolic run)"""
+        c = T(c)
+        if c.__class__ is Bit:
+            return self.ex.decide(c)
+        return bool(c)
+
     def concretize(self, x):
         """fork over the feasible values of a symbolic int (declared split)"""
         if x.__class__ is SInt:
